@@ -51,8 +51,12 @@ func (r *Run) Thorough() bool { return r.Tier == "thorough" }
 
 // Prog loads (once) and returns the program under configuration name; it also
 // becomes the "current" program whose name is attached to obligations.
-func (r *Run) Prog(cfg string) *Prog {
-	if p, ok := r.progs[cfg]; ok {
+func (r *Run) Prog(cfg string) *Prog { return r.ProgFor(cfg) }
+
+// ProgFor is Prog restricted to the packages matching patterns (default ./...).
+func (r *Run) ProgFor(cfg string, patterns ...string) *Prog {
+	key := cfg + "|" + strings.Join(patterns, ",")
+	if p, ok := r.progs[key]; ok {
 		r.cur = p
 		return p
 	}
@@ -60,12 +64,12 @@ func (r *Run) Prog(cfg string) *Prog {
 	if !ok {
 		panic("unknown config " + cfg)
 	}
-	p, err := Load(r.Repo, c)
+	p, err := Load(r.Repo, c, patterns...)
 	if err != nil {
 		r.add(Ob{Rule: "load", Key: "config:" + cfg, Where: r.Repo, Status: "violation", Detail: err.Error()})
 		r.Finish() // does not return
 	}
-	r.progs[cfg] = p
+	r.progs[key] = p
 	r.cur = p
 	r.stats["packages_loaded"] += len(p.Pkgs)
 	r.stats["functions_parsed"] += p.NFuncs
@@ -219,7 +223,7 @@ func (r *Run) Finish() {
 	}
 	cfgs := []string{}
 	for c := range r.progs {
-		cfgs = append(cfgs, c)
+		cfgs = append(cfgs, strings.TrimSuffix(c, "|"))
 	}
 	sort.Strings(cfgs)
 	cov := map[string]any{
